@@ -59,6 +59,7 @@ class Extractor(object):
     def __init__(self, opaque_loops=False):
         self.opaque_loops = opaque_loops
         self.count = 0
+        self._lifting = False
 
     def paths(self, func_node):
         done = []
@@ -163,8 +164,30 @@ class Extractor(object):
         return paths
 
     def _stmt(self, st, paths, done):
+        # lift conditional expressions out of simple statements: fork on the test and continue with the chosen branch
+        if isinstance(st, (ast.Assign, ast.AugAssign, ast.Expr, ast.Return, ast.Raise)) and not self._lifting:
+            ife = None
+            for sub in ast.walk(st):
+                if isinstance(sub, ast.IfExp):
+                    ife = sub
+                    break
+                if isinstance(sub, (ast.Lambda, ast.ListComp, ast.GeneratorExp, ast.SetComp, ast.DictComp)):
+                    pass
+            if ife is not None and not _inside_deferred(st, ife):
+                t, f = self._cond(ife.test, paths)
+                out = []
+                for grp, repl in ((t, ife.body), (f, ife.orelse)):
+                    if grp:
+                        st2 = _replace_node(st, ife, repl)
+                        out.extend(self._stmt(st2, grp, done))
+                return out
         for p in paths:
             p.stmts.append(st)
+        if isinstance(st, (ast.Continue, ast.Break)):
+            for p in paths:
+                p.end = "continue" if isinstance(st, ast.Continue) else "break"
+                done.append(p)
+            return []
         if isinstance(st, ast.If):
             t, f = self._cond(st.test, paths)
             return self._block(st.body, t, done) + self._block(st.orelse, f, done)
@@ -243,6 +266,55 @@ class Extractor(object):
 
 
 _OPS = {ast.Add: "+", ast.Sub: "-", ast.Mult: "*", ast.BitOr: "|", ast.BitAnd: "&", ast.Div: "/"}
+
+
+def _inside_deferred(root, target):
+    """is `target` inside a lambda / comprehension of root (evaluated later or repeatedly: not liftable)?"""
+    stack = [(root, False)]
+    while stack:
+        n, deferred = stack.pop()
+        if n is target:
+            return deferred
+        d2 = deferred or isinstance(n, (ast.Lambda, ast.ListComp, ast.GeneratorExp, ast.SetComp, ast.DictComp))
+        for ch in ast.iter_child_nodes(n):
+            stack.append((ch, d2))
+    return False
+
+
+class _Repl(ast.NodeTransformer):
+    def __init__(self, target, repl):
+        self.target = target
+        self.repl = repl
+
+    def generic_visit(self, node):
+        return super().generic_visit(node)
+
+    def visit(self, node):
+        if node is self.target:
+            return self.repl
+        return super().visit(node)
+
+
+def _replace_node(st, target, repl):
+    """copy of statement st with the node `target` (identity) replaced by `repl`"""
+    # mark, deepcopy, replace the marked node
+    target._dt_mark = True
+    try:
+        c = copy.deepcopy(st)
+    finally:
+        del target._dt_mark
+    for parent in ast.walk(c):
+        for field, val in ast.iter_fields(parent):
+            if isinstance(val, ast.AST) and getattr(val, "_dt_mark", False):
+                setattr(parent, field, copy.deepcopy(repl))
+            elif isinstance(val, list):
+                for i, x in enumerate(val):
+                    if isinstance(x, ast.AST) and getattr(x, "_dt_mark", False):
+                        val[i] = copy.deepcopy(repl)
+    if getattr(c, "_dt_mark", False):
+        return c
+    ast.fix_missing_locations(c)
+    return c
 
 
 def _has_call(expr):
